@@ -12,6 +12,7 @@ Lemma tie_hll_add_cell hv p old : hll_p_min <= p <= hll_p_max -> 0 <= hv < 2^64 
   gen_hll_add hv p (2^p) old = (hll_idx (2^p) hv, wrap8 (Z.max old (hll_rank p hv))).
 Proof.
   unfold hll_p_min, hll_p_max. intros Hp Hv. unfold gen_hll_add. cbv zeta.
+  try rewrite (Z.max_comm _ old).      (* max(rank, registers[i]) written the other way round is the same function *)
   rewrite tie_nlz64. pose proof (pow2_bounds p ltac:(lia)) as [H1 H2].
   f_equal.
   - rewrite hll_idx_spec by lia. unfold spec_idx.
@@ -42,11 +43,11 @@ Proof.
 Qed.
 
 Lemma tie_hll_merge_cell x y : gen_hll_merge_cell x y = wrap8 (Z.max x y).
-Proof. reflexivity. Qed.
+Proof. unfold gen_hll_merge_cell. cbv zeta. try rewrite (Z.max_comm y x). reflexivity. Qed.
 
 Lemma tie_hll_merge (a b : regs) m i :
   hll_merge a b m i = if (0 <=? i) && (i <? m) then gen_hll_merge_cell (a i) (b i) else a i.
-Proof. reflexivity. Qed.
+Proof. rewrite tie_hll_merge_cell. reflexivity. Qed.
 
 Lemma tie_hll_add_all :
   (forall hv p old, hll_p_min <= p <= hll_p_max -> 0 <= hv < 2^64 ->
